@@ -13,6 +13,7 @@ import numpy as np
 
 from vp import gen, probe, refmodels as rm, specmodel as sm
 from vp import defaults
+from vp import reuse
 
 RULE = ('seeded generator: photon cubes 1..6 wavelengths x (2..24)^2, QE as scalar / vector / Spectrum in nm, um, m, angstrom; '
         'square colour patterns of size 1..4 with random R/G/B content, native image sizes any multiple of the pattern, '
@@ -196,6 +197,7 @@ def install(ctx, lentil):
 
 def workload(ctx, lentil):
     defaults.run(ctx, lentil, 'C16', 'charge=sum')
+    reuse.run(ctx, lentil, 'C16', 'charge=sum')
     rng = ctx.rng
     D = lentil.detector
     R = lentil.radiometry
